@@ -453,6 +453,25 @@ def module_binding(prog: "Program", module: str, name: str):
     return kind
 
 
+def dead_private_helper(prog: "Program", f: "FuncInfo") -> bool:
+    """A private, non-dunder function that is not part of the reference vocabulary and that NOTHING in the package mentions (no call,
+    no reference to its name): no operation of the library can reach it, so obligations on what its parameters carry have no instance."""
+    from .symx import baseline_functions
+    if f.qualname in baseline_functions() or not f.name.startswith("_") or (f.name.startswith("__") and f.name.endswith("__")):
+        return False
+    for m in prog.modules.values():
+        for n in ast.walk(m.tree):
+            if isinstance(n, ast.Name) and n.id == f.name and f.cls is None:
+                return False                # (a method is only reached through an attribute; a bare name is another function)
+            if isinstance(n, ast.Attribute) and n.attr == f.name:
+                return False
+            if isinstance(n, ast.Constant) and n.value == f.name:
+                return False                # (getattr(self, '<name>') and the like)
+            if isinstance(n, (ast.ImportFrom,)) and any(a.name == f.name for a in n.names):
+                return False
+    return True
+
+
 def load_repo(repo: str) -> Program:
     return Program.from_dir(os.path.join(repo, "src", "serif"))
 
